@@ -142,6 +142,25 @@ CHECKS["C09"] = dict(
          "claimed): a name defined in BOTH branches is still rejected afterwards.",
     design="§4 C09")
 
+CHECKS["C20"] = dict(
+    engine="E2 mirsym (MIR -> z3)", technique="symbolic execution of rustc MIR with bounded symbolic sets, z3 (EUF + integers) validity queries, native replay",
+    text="Bounded symbolic model checking of the assignability kernels: Class::has_parent (reflexive, Any top, ancestor "
+         "search over <= 2 declared parents with error propagation), TrueName::is_superset_of (nullable rules, shared with "
+         "C06), the loop body of Name::is_superset_of over <= 3 members (member-wise union rule, accumulator), and Ord for "
+         "TrueName (total order consistent with equality, under axioms for the derived StringName order).",
+    note="Outside: transitivity, inheritance chains beyond one inductive step, generics, commutativity / associativity / "
+         "idempotence of union (HashSet operations).",
+    design="§4 C20")
+CHECKS["C16"] = dict(
+    engine="E2 mirsym (MIR -> z3)", technique="symbolic execution of rustc MIR, z3 queries over call-event terms and a bounded symbolic accumulator, native replay through python3 ast",
+    text="Bounded symbolic model checking of the import kernels: in the three ToPy implementations every Core::Type carrying "
+         "a typing name has been registered by add_from_import(\"typing\", name) earlier on the same path; Core::Sqrt "
+         "only after add_import(\"math\"); the abstractmethod decorator only after its abc import; add_import on an "
+         "accumulator with <= 2 arbitrary entries is idempotent; gen_arguments places the collected imports first.",
+    note="add_from_import's BTreeMap merge and the NewType / ABC sites of convert_class are not encoded (uninterpreted / "
+         "outside); free-name analysis of whole outputs is outside.",
+    design="§4 C16")
+
 NOT_APPLICABLE = {
     "C02": "needs the generator executed on symbolic programs (core::fmt/to_py recursion does not finish in CBMC even on concrete 3-node trees) and membership in Python's grammar as the assertion; no encodable kernel (DESIGN §6)",
     "C04": "oracle is Python's dynamic semantics over whole programs and the subject is the whole checker (HashSet/recursion out of reach of Kani; not loop-free for the MIR executor) (DESIGN §6)",
